@@ -141,6 +141,17 @@ func cmdCheck(args []string) int {
 	genSecs := time.Since(t0).Seconds() - loadSecs
 	work := filepath.Join(outDir(), "work", *prop)
 	os.RemoveAll(work)
+	// obligations recorded as known findings are expected to fail: they get the short stages only (if one of them
+	// is discharged there the finding is gone and no KNOWN-FINDING line is printed)
+	if kfs, _ := loadKnownFindings(); len(kfs) > 0 {
+		for _, o := range all {
+			for _, kf := range kfs {
+				if kf.Obligation == o.Name {
+					o.Short = true
+				}
+			}
+		}
+	}
 	discharge(all, work, *tier, 16)
 	// obligations no solver decided within the quick budget get one retry with a larger one before
 	// anything is reported (a time-out is not a counterexample)
@@ -326,6 +337,7 @@ func cmdCheck(args []string) int {
 			"load_s":                   round2(loadSecs),
 			"vcgen_s":                  round2(genSecs),
 			"samples":                  samples,
+			"slowest_instances":        slowest(all, 12),
 			"back_ends":                []string{"z3-new 5.1.0", "cvc5 1.0", "z3 4.8.12 (raced per obligation)"},
 			"contract_files":           p.specs.Files,
 			"vacuity": fmt.Sprintf("%d mustfail canaries (clauses that are false on purpose), none discharged; precondition covers: %d satisfiable, %d undecided within 1 s, %d contradictory (a contradictory one is an engine error); return-path covers: %d reachable, %d undecided, %d unreachable under the contract (listed by path in the run's output); no function has all its returns unreachable; every name in obligations.lock was generated",
@@ -387,4 +399,23 @@ func outDir() string {
 		return d
 	}
 	return verifDir
+}
+
+// slowest lists the obligation instances that took longest (headroom against the per-solver budget).
+func slowest(all []*Obligation, n int) []map[string]any {
+	var os2 []*Obligation
+	for _, o := range all {
+		if o.Script != "" && !o.Cover && !o.Must && !o.Short {
+			os2 = append(os2, o)
+		}
+	}
+	sort.Slice(os2, func(i, j int) bool { return os2[i].Secs > os2[j].Secs })
+	var out []map[string]any
+	for i, o := range os2 {
+		if i >= n {
+			break
+		}
+		out = append(out, map[string]any{"obligation": o.Name, "path": o.Path, "seconds": round2(o.Secs), "status": o.Status, "solver": o.Solver})
+	}
+	return out
 }
